@@ -10,6 +10,7 @@ import numpy as np
 import rowan
 from scipy.spatial import ConvexHull
 
+from .base_classes import _require_positive
 from .polyhedron import Polyhedron
 from .sphere import Sphere
 from .utils import translate_inertia_tensor
@@ -244,6 +245,7 @@ class ConvexPolyhedron(Polyhedron):
 
     @volume.setter
     def volume(self, value: Number):
+        _require_positive(value, "Volume")
         scale_factor = np.cbrt(value / self._volume)
         self._rescale(scale_factor)
 
@@ -254,6 +256,7 @@ class ConvexPolyhedron(Polyhedron):
 
     @surface_area.setter
     def surface_area(self, value: Number):
+        _require_positive(value, "Surface area")
         scale_factor = np.sqrt(value / self._area)
         self._rescale(scale_factor)
 
